@@ -293,7 +293,7 @@ def check_case(case):
 def _check(case, res, sb):
     mc, md, out = build_tree(sb.root)
     cwd0 = CWD0[case.get('cwd0', 0) % len(CWD0)]
-    mon = fsmon.Monitor([mc, md], _allowed_reads())
+    mon = fsmon.Monitor([mc, md], _allowed_reads(), fence=sb.root)
     prune = [mc, md, sb.z]
     before = fsmon.snapshot(sb.root, prune)
     spec_c = mc + (':' + cwd0 if cwd0 else '')
@@ -553,7 +553,7 @@ def gen_directed(shard, nshards, tier, seed):
         if kind == 'FILES0':
             continue
         for a in attacks:
-            for c in range(3):
+            for c in (0, 2):
                 if kind == 'NAME':
                     cases.append({'cwd0': c, 'ops': [{'k': kind, 'p': 'IN.TXT', 'q': a}]})
                     cases.append({'cwd0': c, 'ops': [{'k': kind, 'p': a, 'q': 'GOT.TXT'}]})
@@ -573,7 +573,7 @@ def gen_directed(shard, nshards, tier, seed):
 def units(tier):
     return [
         Unit('directed', 'enum', shards=16, gen=gen_directed),
-        Unit('histories', 'hyp', shards=16, examples={'quick': 420, 'thorough': 14000},
+        Unit('histories', 'hyp', shards=16, examples={'quick': 250, 'thorough': 14000},
              strategy=strat_history),
         Unit('histories-known-region', 'hyp', shards=4, examples={'quick': 40, 'thorough': 1500},
              strategy=lambda: strat_history(True)),
@@ -581,13 +581,13 @@ def units(tier):
 
 
 REGRESSIONS = [
-    # open finding: '..' + blank element escapes the mount (read / create / delete / list)
+    # fixed 0237db6d: '..' + blank element escaped the mount (read / create / delete / list)
     {'cwd0': 0, 'ops': [{'k': 'OPEN_I', 'p': '.. \\SECRET.TXT'}]},
     {'cwd0': 0, 'ops': [{'k': 'CHDIR', 'p': '.. '}]},
-    # open finding: final component '..' at the mount root addresses the parent of the root
+    # fixed 0237db6d: final component '..' at the mount root addressed the parent of the root
     {'cwd0': 0, 'ops': [{'k': 'RMDIR', 'p': '..'}]},
-    # open finding: empty or multi-letter drive prefix that is a substring of the drive-letter
-    # string -> KeyError escapes from Files._get_diskdevice_and_path
+    # fixed 4a576eca: empty or multi-letter drive prefix that is a substring of the drive-letter
+    # string -> KeyError escaped from Files._get_diskdevice_and_path
     {'cwd0': 0, 'ops': [{'k': 'KILL', 'p': ':X'}]},
     {'cwd0': 0, 'ops': [{'k': 'CHDIR', 'p': 'CD:SUB'}]},
     # plain clamped climbs must stay quiet
@@ -595,4 +595,20 @@ REGRESSIONS = [
     {'cwd0': 2, 'ops': [{'k': 'CHDIR', 'p': '..\\..\\..\\..'}, {'k': 'KILL', 'p': 'SECRET.TXT'}]},
 ]
 
-KILLS = []
+KILLS = [
+    "disk.py _get_native_reldir: `cwd = cwd[:-1] if cwd else cwd + ['..']` (negative climb allowed) "
+    "-> fsmon.read.outside, fsmon.write.outside, effect.created/deleted/modified, leak.content, "
+    "leak.listing (directed + histories)",
+    "disk.py _get_native_reldir: ntpath.normpath removed -> fsmon.read.outside, "
+    "fsmon.write.outside, effect.created, leak.listing (histories, e.g. SUB\\..\\..\\SECRET.TXT)",
+    "disk.py _get_native_abspath: raw DOS path joined to the native root instead of the mapped "
+    "name -> fsmon.read/write.outside, effect.created/modified, leak.content",
+    "disk.py _get_native_reldir: clamp gives up only after >=3 levels beyond the root "
+    "-> fsmon.read.outside, fsmon.write.outside [refused by the fence] (directed and random)",
+    "disk.py rename: new name joined raw -> effect.created, fsmon.write.outside",
+    "disk.py _split_pathmask: directory joined raw (KILL/FILES) -> effect.deleted, "
+    "fsmon.read/write.outside, leak.listing",
+    "SURVIVES (equivalent for this property): disk.py _get_native_reldir accepting '/' -- "
+    "ntpath.normpath turns '/' into '\\' and collapses '..', the clamp still applies; only the "
+    "error code changes, which C27 does not speak about",
+]
